@@ -414,6 +414,9 @@ Definition tw_query_roots (s : tw_state) : list str := tw_roots s.
 Definition hex_ok (L : nat) (s : str) : bool :=
   match hex_decode s with Some b => Nat.eqb (length b) L | None => false end.
 
+(* a hexadecimal digit in either case: the characters of an accepted root / proof element *)
+Definition is_hex_char (c : N) : bool := match hex_val c with Some _ => true | None => false end.
+
 (* a history of calls; a rejected call changes nothing *)
 Fixpoint wl_run (h : list (N * addr * wl_msg)) (s : wl_state) : wl_state :=
   match h with
